@@ -83,6 +83,12 @@ type State struct {
 	sigs    []sigReg
 	pcH1, pcH2 uint64
 	badSigs    []*Term
+	decs       []decRec
+}
+
+type decRec struct {
+	t      *Term
+	digits []*Term
 }
 
 type keccakApp struct {
@@ -127,6 +133,7 @@ func (st *State) clone() *State {
 	n.keccaks = append([]keccakApp(nil), st.keccaks...)
 	n.sigs = append([]sigReg(nil), st.sigs...)
 	n.badSigs = append([]*Term(nil), st.badSigs...)
+	n.decs = append([]decRec(nil), st.decs...)
 	n.status = st.status
 	n.steps = st.steps
 	n.pcH1, n.pcH2 = st.pcH1, st.pcH2
@@ -275,6 +282,15 @@ func (st *State) assume(t *Term) {
 	st.pc = append(st.pc, t)
 	st.pcH1 = st.pcH1*1000003 ^ uint64(t.id)*0x9E3779B97F4A7C15
 	st.pcH2 = (st.pcH2+uint64(t.id))*0xff51afd7ed558ccd ^ (st.pcH2 >> 29)
+}
+
+func (st *State) assumeOnce(t *Term) {
+	for _, c := range st.pc {
+		if c == t {
+			return
+		}
+	}
+	st.assume(t)
 }
 
 func bigOf(v int64) *big.Int { return big.NewInt(v) }
